@@ -108,7 +108,7 @@ Definition wstep (w : world) (c : call) : world * res :=
         | inl r => (w, r)
         | inr d => (with_view w vi (set_cwd v d), ROk)
         end)
-  | CGetwd vi => on_view w vi (fun v => (w, RStr (v_cwd v)))
+  | CGetwd vi => on_view w vi (fun v => (w, getwd s v))
   | CStat vi p => on_view w vi (fun v => (w, stat_gen SlStat s v p))
   | CLstat vi p => on_view w vi (fun v => (w, stat_gen SlLstat s v p))
   | CEvalSymlinks vi p => on_view w vi (fun v => (w, eval_symlinks s v p))
